@@ -35,7 +35,7 @@ def to_json(predicate: Predicate) -> dict[str, Any]:
             case AnyPredicate(any_predicate):
                 return "any", {"predicate": to_json(any_predicate)}
             case FnPredicate(predicate_fn):
-                name = predicate_fn.__code__.co_name
+                name = getattr(predicate_fn, "__name__", type(predicate_fn).__name__)
                 return "fn", {"name": name}
             case IsFalsyPredicate():
                 return "is_falsy", None
